@@ -491,6 +491,12 @@ class RefJsonWriter {
       if (e != std::string::npos)
         t[e] = 'E';
     }
+    if (sp_.numbers && sp_.rng && t.find_first_of("eE") == std::string::npos && coin(1, 8)) {
+      // same value, longer token: trailing zeros up to the documented 63-character limit
+      size_t target = 48 + size_t(sp_.rng->below(16));  // 48..63
+      while (t.size() < target)
+        t += '0';
+    }
     out_ += t;
   }
   void value(const Val& v) {
